@@ -13,7 +13,8 @@ def register(reg, prog):
     E = Enum
     reg.declare_class('Options', 'aiocoap.options:Options',
                       fields={'_options': Dict(INT, List(Ref('OptionType')))})
-    reg.declare_class('OptionType', 'aiocoap.optiontypes:OptionType', fields={'number': E(OPTNUM)})
+    reg.declare_class('OptionType', 'aiocoap.optiontypes:OptionType', fields={'number': E(OPTNUM), 'value': BYTES})
+    reg.assume('A-OPAQUEVAL: where code reads `.value` of an option of statically unknown format (CSM option 2), it is opaque bytes (unknown numbers map to OpaqueOption in the format table)')
     reg.declare_class('StringOption', 'aiocoap.optiontypes:StringOption', fields={'number': E(OPTNUM), 'value': STR})
     reg.declare_class('OpaqueOption', 'aiocoap.optiontypes:OpaqueOption', fields={'number': E(OPTNUM), 'value': BYTES})
     reg.declare_class('UintOption', 'aiocoap.optiontypes:UintOption', fields={'number': E(OPTNUM), 'value': INT})
